@@ -124,20 +124,20 @@ def _faulty_save(ctx, fs, pool, o, op, name, fault, prefix="c09"):
         except Violation:
             raise
         except Exception as e:
-            raise Violation("c09:write-fault-misreported", "an injected write error surfaced as %s: %s" % (type(e).__name__, e), site="save_lmpdat")
+            raise Violation(prefix + ":write-fault-misreported", "an injected write error surfaced as %s: %s" % (type(e).__name__, e), site="save_lmpdat")
         fs.script = dict(fs.script, write={})
         fired = fs.stats.get("enospc_fired", 0) + fs.stats.get("eio_fired", 0) - fired_before
         if fired:
             ctx.count("faults_fired")
             if raised is None:
-                raise Violation("c09:write-error-swallowed", "the disk reported %s during save but the call returned normally" % fault, site="save_lmpdat")
+                raise Violation(prefix + ":write-error-swallowed", "the disk reported %s during save but the call returned normally" % fault, site="save_lmpdat")
             for h in fs.open_handles:
                 if h.path_ == path and h.mode_ != "r" and not h.closed_ and op.get("via") == "path":
-                    raise Violation("c09:file-left-open", "after a failed save to a path the file handle is still open", site="save")
+                    raise Violation(prefix + ":file-left-open", "after a failed save to a path the file handle is still open", site="save")
         elif raised is not None:
             raise Violation("raises:%s" % type(raised).__name__, "save raised without an injected fault: %s" % raised, site="save_lmpdat")
     if replcheck.snapshot(r) != before:
-        raise Violation("c09:save-modified-object", "a (failed) save changed the in-memory object", site="save_lmpdat")
+        raise Violation(prefix + ":save-modified-object", "a (failed) save changed the in-memory object", site="save_lmpdat")
     # clean retry
     re, rem = restart.restart_lmpdat(ctx, fs, r, m, name + "_retry", style=style, via_save="path", via_load="path", prefix=prefix)
     ctx.count("clean_retries")
